@@ -540,6 +540,7 @@ def classify(ctx, progs, ev, res):
         if b is not None:
             stats["bash_agree" if compare_bash(code, b, g) else "bash_differ"] += 1
         obs = (code[0], code[1])
+        shown = (code[0], code[1][:60] + ([("...", len(code[1]))] if len(code[1]) > 60 else []))
         e0 = (a0["status"], a0["marks"])
         e1 = (a1["status"], a1["marks"])
         bash_same = b is not None and compare_bash(code, b, g)
@@ -550,7 +551,7 @@ def classify(ctx, progs, ev, res):
             res["vetoed"].append({"input": inp, "why": why})
             why = None
         if why:
-            v = {"input": inp, "why": why, "code": obs}
+            v = {"input": inp, "why": why, "code": shown}
             if a0["handler_exited"] and obs == e0 and e0 != e1:
                 v["known"] = KF_EXIT
             specv.append(v)
@@ -568,11 +569,11 @@ def classify(ctx, progs, ev, res):
                 stats["spec_vetoed_by_bash"] += 1
                 res["vetoed"].append({"input": inp, "why": "handler exit dropped, but bash behaves the same"})
             elif not why:
-                specv.append({"input": inp, "known": KF_EXIT, "code": obs, "expected": e1,
+                specv.append({"input": inp, "known": KF_EXIT, "code": shown, "expected": e1,
                               "why": "a trap handler called `exit`, but the shell went on / ended with the interrupted "
                                      "status: got status %d, expected %d" % (obs[0], e1[0])})
         else:
-            mism.append({"input": inp, "code": obs, "model_as_found": e0, "model_repaired": e1})
+            mism.append({"input": inp, "code": shown, "model_as_found": (e0[0], e0[1][:60]), "model_repaired": (e1[0], e1[1][:60])})
         if a0["exit_starts"] >= 1: stats["exit_trap_ran"] += 1
         if a0["kind"] == "X": stats["exec_replaced"] += 1
         if a0["handler_exited"]: stats["handler_exited"] += 1
